@@ -189,6 +189,66 @@ class GroupReplace:
         yield {"name": "values", "pre": pre, "thunk": thunk, "post": post, "args": (g, v), "describe": describe}
 
 
+class MergeSingle:
+    """_merge_single_markers on two string atoms (same or different variable), both merge classes; MarkerExpression.__and__/__or__"""
+
+    def __init__(self, th, which):
+        self.th, self.which = th, which
+        self.target = {"merge": S + "_merge_single_markers", "and": S + "MarkerExpression.__and__", "or": S + "MarkerExpression.__or__"}[which]
+
+    def cases(self, th):
+        f = th.index.func(self.target)
+        MMc, MUc = th.index.cls("MultiMarker"), th.index.cls("MarkerUnion")
+        from pyvc.values import ClassRef
+        kinds = [("MultiMarker", MMc), ("MarkerUnion", MUc)] if self.which == "merge" else [("MultiMarker", MMc)] if self.which == "and" else [("MarkerUnion", MUc)]
+        for o1 in OPS4:
+            for o2 in OPS4:
+                for kname, kcls, r1, r2 in [(kn, kc, x, y) for kn, kc in kinds for x in (False, True) for y in (False, True)]:
+                    a, c = th.sym_atom(o1, "m1"), th.sym_atom(o2, "m2")
+                    a.fields["reversed"], c.fields["reversed"] = r1, r2
+                    pre = [string_name(a.fields["name"]), string_name(c.fields["name"])]
+                    comb = z3.And if kname == "MultiMarker" else z3.Or
+
+                    def thunk(ex, a=a, c=c, kcls=kcls):
+                        args = [a, c, ClassRef(kcls)] if self.which == "merge" else [a, c]
+                        r = ex.call_function(f, args, inline=True)
+                        if r is None or r is NOTIMPL:
+                            return (r, None, None, None)
+                        return (r, meaning(ex, r), meaning(ex, a), meaning(ex, c))
+
+                    def post(ex, v, comb=comb):
+                        r, mr, ma, mc = v
+                        if r is None:
+                            return [("merge.none-allowed", z3.BoolVal(self.which == "merge"))]
+                        if mr is None:
+                            return [("result-is-a-marker", z3.BoolVal(False))]
+                        return [("C02.ev", mr == comb(ma, mc)), ("C15.group-has-two-values", normal(r))]
+                    yield {"name": f"{o1}|{o2}|{kname}|{int(r1)}{int(r2)}", "pre": pre, "thunk": thunk, "post": post, "args": (a, c), "describe": describe}
+
+
+class BridgeB2:
+    """MarkerExpression._evaluate on a well-defined string atom agrees with its GenericSpecifier view (bridge B2), for both operand
+    orders.  'Well-defined string atom' = Specifier(op + literal) is not a valid PEP 440 specifier, modelled as: it raises InvalidSpecifier."""
+    target = S + "MarkerExpression._evaluate"
+
+    def __init__(self, th):
+        self.th = th
+
+    def cases(self, th):
+        f = th.index.func(self.target)
+        for o in OPS4:
+            for rev in (False, True):
+                a = th.sym_atom(o, "atom")
+                a.fields["reversed"] = rev
+
+                def thunk(ex, a=a):
+                    got = ex.call_function(f, [a, EnvMapping()], inline=True)
+                    spec = ex.getattr(a, "specifier")
+                    return (got, ex.contains(spec, ENV(a.fields["name"])))
+                yield {"name": f"{o}|reversed={rev}", "pre": [string_name(a.fields["name"])], "thunk": thunk,
+                       "post": (lambda ex, v: [("bridge.B2.evaluate-equals-specifier-view", b(v[0]) == b(v[1]))]), "args": (a,), "describe": describe}
+
+
 def describe(m, args, result=None):
     out = {}
 
@@ -222,6 +282,7 @@ def all_contracts(th):
     cs = [OSetInit(th)]
     for cname in ("EqualityMarkerUnion", "InequalityMultiMarker"):
         cs += [GroupReplace(th, cname), GroupOp(th, cname, "__and__"), GroupOp(th, cname, "__or__")]
+    cs += [MergeSingle(th, "merge"), MergeSingle(th, "and"), MergeSingle(th, "or"), BridgeB2(th)]
     return {c.target: c for c in cs}
 
 
